@@ -375,6 +375,8 @@ def run_alternation(key):
     try:
         final = M.fit(model, data, init, n, trainer_kw=tr_kw, **opts)
     except Exception as e:  # noqa
+        if 'ill-defined empirical covariance' in str(e):
+            return trivial('Gaussian covariance guard active (class collapsed)')
         return viol(f'{model}: fit raised on regular data: {e!r}')
     finally:
         _verif.clear()
@@ -410,16 +412,21 @@ def run_alternation(key):
             return viol(bad)
         states += 1
         if i + 1 < n:
+            rt_e = rt
+            if 'cacg' in imp_i:
+                # z^H B^-1 z amplifies rounding by cond(B) = 1 / min eigenvalue (max is normalised)
+                lam = np.asarray(imp_i['cacg']['lam'])
+                rt_e = rt + 1e-14 * float((lam.max(-1) / lam.min(-1)).max())
             g_ref, q_ref, _ = EM.e_step(model, imp_i, data, eps=eps)
             if aligner is not None:
                 g_ref, q_ref, amb = EM.apply_aligner(g_ref, q_ref, aligner)
                 ambiguous = ambiguous or amb
             if not ambiguous:
-                bad = tol.mismatch(trace[i + 1][2], g_ref, rt, what=f'{model} E-step after iteration {i}')
+                bad = tol.mismatch(trace[i + 1][2], g_ref, rt_e, what=f'{model} E-step after iteration {i}')
                 if bad:
                     return viol(bad)
                 if q_ref is not None:
-                    bad = tol.mismatch(trace[i + 1][3], q_ref, rt,
+                    bad = tol.mismatch(trace[i + 1][3], q_ref, rt_e,
                                        what=f'{model} quadratic form handed to M-step {i + 1}')
                     if bad:
                         return viol(bad)
@@ -503,12 +510,14 @@ def subchecks(tier, seed):
 
     def cacg_cases():
         for D in (2, 3, 5):
-            for N in (D + 1, 2 * D, 12):
+            for N in sorted({D + 1, 2 * D, 12, 4 * D + 4}):
                 for lead in ((), (2,), (2, 2)):
-                    for its in (1, 2, 5, 200):
+                    for its in (1, 2, 5, 500):
                         for norm in ('eigenvalue', 'trace', False):
                             for herm in (True, False):
-                                if its == 200 and N == D + 1:
+                                # the fixed-point clause needs comfortably more frames than channels
+                                # (Tyler's iteration converges slowly for N close to D)
+                                if (its == 500) != (N == 4 * D + 4):
                                     continue
                                 yield (D, N, lead, its, norm, herm, seed)
     subs.append(Sub('cacg_trainer', ('D', 'N', 'lead', 'its', 'norm', 'herm', 'seed'), cacg_cases,
